@@ -175,13 +175,27 @@ def run(ctx, name, kind, **kw):
                 e3 = ecdsa_ref.digest_to_e(dom, dg3, True)
                 want3 = _ref_det(dom, d, hf, dg3, e3, extra)
                 for cont_name, cont in (("bytearray", bytearray(dg3)), ("memoryview", memoryview(dg3)), ("array_B", array.array("B", dg3)),
-                                        ("array_H", array.array("H", dg3)), ("array_I", array.array("I", dg3)), ("memoryview_array_I", memoryview(array.array("I", dg3)))):
+                                        ("array_H", array.array("H", dg3)), ("array_I", array.array("I", dg3)), ("memoryview_array_I", memoryview(array.array("I", dg3))),
+                                        ("memoryview_2d", memoryview(dg3).cast("B", shape=[2, dl // 2])), ("memoryview_2d_4rows", memoryview(dg3).cast("B", shape=[4, dl // 4])),
+                                        ("memoryview_signed", memoryview(dg3).cast("b")), ("array_b_signed", array.array("b", [x - 256 if x > 127 else x for x in dg3]))):
                     if array.array("I").itemsize != 4 and "I" in cont_name:
                         continue
                     _det_call(ctx, "det.value", "%s|%s|container|%s|dl%+d" % (c.name, hname, cont_name, dl - L), c, d, hname,
                               lambda: sk.sign_digest_deterministic(cont, hashfunc=hf, sigencode=enc, extra_entropy=extra, allow_truncate=True), fmt, n, want3,
                               "sk.sign_digest_deterministic(__import__('array').array('I', %r), hashfunc=H, sigencode=util.sigencode_%s, extra_entropy=%r, allow_truncate=True)" % (dg3, encname, extra)
                               if cont_name == "array_I" else None)
+            # the key's own default hash decides when none is named - whatever is done to OTHER objects' public attributes in between
+            # (the verifying key's default_hashfunc is a documented, assignable attribute)
+            if i % 3 == 0:
+                sk_b = ecdsa.SigningKey.from_secret_exponent(d, c, hf)
+                vk_b = sk_b.get_verifying_key()
+                other_hf = hashlib.sha512 if hf is not hashlib.sha512 else hashlib.sha1
+                vk_b.default_hashfunc = other_hf
+                ctx.count("default_hash_after_vk_attribute_assignment")
+                _det_call(ctx, "det.value", "%s|%s|default_hash_after_vk_reassigned" % (c.name, hname), c, d, hname,
+                          lambda: sk_b.sign_digest_deterministic(dg, sigencode=enc, extra_entropy=extra, allow_truncate=True), fmt, n, want, None)
+                _det_call(ctx, "det.value", "%s|%s|default_hash_after_vk_reassigned" % (c.name, hname), c, d, hname,
+                          lambda: sk_b.sign_deterministic(msg, sigencode=enc, extra_entropy=extra), fmt, n, want, None)
             # sign_digest_deterministic with digests shorter / longer than the order
             for dl in (L - 1, L, L + 1, 2 * L, 1):
                 if dl <= 0:
